@@ -946,7 +946,20 @@ class Generated:
     pass
 
 
-def build_unit(unit, repo, variant=None):
+def _isolated_spec(spec):
+    """The same item kept only as a signature + (assumed) contract: used when its body cannot be brought into the
+    verifier after a change (unsupported construct, lost anchor, rewrite pattern no longer matching)."""
+    s2 = dict(spec)
+    s2['trusted'] = True
+    for k in ('proofs', 'loops', 'loop_rewrites', 'lift_nested_fns', 'canaries', 'decreases', 'attrs'):
+        s2.pop(k, None)
+    for k in ('rewrites', 'pre_rewrites'):
+        if s2.get(k):
+            s2[k] = [tuple([rw[0], rw[1], None] + list(rw[3:])) for rw in s2[k]]
+    return s2
+
+
+def build_unit(unit, repo, variant=None, isolate=()):
     """Returns Generated with .text, .items (metadata), .marks, .log, .line_of_mark.
     variant: None | ('vacuity',) -> adds __vac copies and canary copies."""
     clear_cache()
@@ -966,7 +979,15 @@ def build_unit(unit, repo, variant=None):
         parts.append(open(p).read().rstrip() + '\n')
     items_meta = []
     canary_parts = []
+    isolated_ids = []
     for spec in unit.ITEMS:
+      if spec is None:
+          continue
+      _iid = spec.get('id') or _default_id(spec['path'])
+      if _iid in isolate:
+          spec = _isolated_spec(spec)
+          isolated_ids.append(_iid)
+      try:
         srcpath = resolve_src(repo, spec['src'])
         src, toks = load_src(srcpath)
         path = spec['path']
@@ -1077,8 +1098,15 @@ def build_unit(unit, repo, variant=None):
             parts.append('// ---- item %s  (%s:%d-%d) ----\n' % (item_id, spec['src'], a, b))
             parts.append(text + '\n')
         meta['rewrites'] = ['%s %s' % x for x in ilog]
+        meta['isolated'] = _iid in isolate
         items_meta.append(meta)
         log.extend(ilog)
+      except Undecided as e:
+        # remember which item could not be processed: the caller may retry with that item isolated
+        if not hasattr(e, 'item'):
+            e.item = _iid
+            e.isolatable = bool(not spec.get('trusted') and ('ensures' in spec or 'requires' in spec or 'proofs' in spec or 'loops' in spec))
+        raise
     for f in getattr(unit, 'POSTLUDE', []):
         p = os.path.join(CONTRACTS, f)
         parts.append('// ---- postlude: %s ----\n' % f)
@@ -1092,6 +1120,7 @@ def build_unit(unit, repo, variant=None):
     g.marks = w.marks
     g.log = log
     g.unit = unit
+    g.isolated = list(isolated_ids)
     # line maps
     g.mark_lines = {}
     g.mark_offsets = {}
